@@ -58,6 +58,8 @@ class Trace:
                 ret, after = bool(o[0]), cur
             elif t == 12:
                 ret, after = sx.bnd(o[0]), tabs(o[1])
+            elif t == 14:
+                ret, after = sx.q(o[0]), cur
             else:
                 after = cur
             yield {"n": n, "op": op, "ret": ret, "amt": amt, "before": cur, "after": after, "world": list(world), "error": None}
@@ -402,6 +404,57 @@ def mon_c09_down(sc, obs):
 
 
 # ---------------------------------------------------------------- generic runner
+@monitor("fol_c18_loss")
+def mon_c18_loss(sc, obs):
+    """the contradiction loss Model.loss_fn reports: >= 0, the sum of L-U over the crossing rows, zero iff nothing crosses"""
+    if whole_error(obs):
+        return None
+    tr = Trace(sc, obs)
+    for st in tr.steps():
+        if st["error"] is not None or st["after"] is None:
+            return None
+        if st["op"][0] != 14:
+            continue
+        rows = [(i, g, l, u) for i in range(tr.n) for g, (l, u) in st["after"][i].items() if crossed(sx.q(tr.kb[i][4][0]), l, u)]
+        exp = sum((l - u for _, _, l, u in rows), F(0))
+        tol = F(0) if all(v.denominator <= 1024 for _, _, l, u in rows for v in (l, u)) else F(1, 2 ** 16)
+        if st["ret"] < 0 or abs(st["ret"] - exp) > tol or (st["ret"] == 0) != (not rows):
+            return (f"op #{st['n']}: contradiction loss >= 0, zero iff no bounds cross, = sum of L-U over the crossing rows {[(i, g) for i, g, _, _ in rows]} = {exp}", f"{st['ret']}", None)
+    return None
+
+
+def c18_fol_part(ctx):
+    rng = ctx.rng("c18fol")
+    scs, meta = gen_fol.gen_k40(rng, 200 if ctx.quick else 2500)
+    mixed = 0
+    for sc in scs:
+        ops = []
+        for op in sc[5]:
+            ops.append(op)
+            if op[0] in (3, 4, 5, 8) or rng.random() < 0.2:
+                ops.append([14])
+        sc[5] = ops + [[5, -1, 30], [14], [9]]
+    m, impl, lines = run_fol(ctx, "K6 first-order engine (+contradiction loss after model-level calls)", scs, ["fol_c18_loss", "fol_c17"])
+    pos = 0
+    for sc, o in zip(scs, impl[0]):
+        tr = Trace(sc, sx.loads(o))
+        if whole_error(tr.obs):
+            continue
+        hit = mix = False
+        for st in tr.steps():
+            if st["after"] is None:
+                break
+            if st["op"][0] == 14 and st["ret"] > 0:
+                hit = True
+                for i in range(tr.n):
+                    rs = list(st["after"][i].values())
+                    if any(crossed(sx.q(tr.kb[i][4][0]), l, u) for l, u in rs) and any(l < u for l, u in rs):
+                        mix = True
+        pos += hit
+        mixed += mix
+    ctx.cov["fol_loss"] = {"scenarios": len(scs), "with_positive_loss": pos, "with_a_formula_mixing_crossing_and_open_rows": mixed}
+
+
 def run_fol(ctx, comp, scs, monitors, hashseeds=(0,), per_proc=60):
     def nontrivial(sc, mo):
         return "-900" not in mo[:8] and mo.count("(") > 40
